@@ -327,6 +327,10 @@ def check(repo: Repo, R) -> None:
     if not getattr(R, "_c07_attached", False):
         R.run(_c07.io_choice, repo, Retag(R, lambda r: "C08.6-interface-by-the-flattening-mark",
                                          "after a failure past bundle flattening, a later healthy design that shares a flattened-but-unmarked sub-module resolves port references against its flattened ports: a spurious `Invalid port` error for a design that does not contain the offending module"))
+        # ... and that mark is left before the first bundle is taken apart: a flattening that fails half-way leaves a module
+        # that says so
+        R.run(_c07.snapshot, repo, Retag(R, lambda r: "C08.7-flattening-marked-before-it-starts",
+                                        "a module whose bundle flattening failed half-way carries no mark of it: a later design that instantiates it is checked against its bundle-level ports and exported with the half-flattened body"))
     R.floor("C08.1-pending-released-on-every-exit", 2)
     R.floor("C08.2-done-only-after-body-returned", 2)
     R.floor("C08.3-failed-visit-recorded-and-reraised", 1)
